@@ -56,8 +56,8 @@ PROPS = {
                 quick=dict(batches=48, units=300, wall=75),
                 thorough=dict(batches=480, units=600, wall=1500)),
     "C20": dict(engine="foreign", level="fault_enumeration",
-                quick=dict(batches=8, units=1, wall=85),
-                thorough=dict(batches=16, units=1, wall=1500)),
+                quick=dict(batches=10, units=1, wall=85),
+                thorough=dict(batches=20, units=1, wall=1500)),
     "C19": dict(engine="sysfs", level="fault_enumeration",
                 quick=dict(batches=48, units=6, wall=75),
                 thorough=dict(batches=480, units=12, wall=1500)),
